@@ -56,19 +56,153 @@ static std::vector<double> kernel(Rng& r, int n, int style, double spacing) {
   return y;
 }
 
-static void gen_case(Rng& r, Case& c, int npoints, int forced_order) {
+
+// ---- grid family (added for seeded change C14-4) -------------------------------------------------------------
+// Table knots and kernel knots on a COMMON grid whose step is not a short dyadic number: pairwise sums that
+// coincide mathematically are computed along different routes (0.7+0.1 vs 0.8+0.0) and come out bit-equal for
+// some pairs and one or two ulp apart for others.  The doubles are taken as given: the specification works with
+// the exact rationals of the stored knots, where those sums are simply distinct, very close numbers.
+struct Grid {
+  double h;      // step
+  double a;      // offset (0 or a non-dyadic shift)
+  double s;      // scale applied after the product (1 or a non-dyadic factor)
+  int how;       // 0: a + s*(m*h)   1: accumulated v += h   2: a + m*(s*h)   3: (a + m*h)*s
+  std::vector<double> acc;   // how == 1: table of accumulated values, index m - mlo
+  int mlo;
+};
+
+static double grid_at(const Grid& g, int m) {
+  switch (g.how) {
+    case 0: return g.a + g.s * (m * g.h);
+    case 1: return g.acc[m - g.mlo];
+    case 2: return g.a + m * (g.s * g.h);
+    default: return (g.a + m * g.h) * g.s;
+  }
+}
+
+static const double kSteps[] = {0.1, 0.2, 0.3, 0.05, 0.7, 1.0 / 3, 0.01, 2.5e-2, 1e-3, 0.15, 0.6, 1.1, 3.3, 1e-7, 12.7, 0.31415926535897931};
+static const double kShifts[] = {0.3, -2.6, 0.1, 17.9, -0.7, 1000.3, 1e-3, -123.45};
+static const double kScales[] = {3.0, 0.3, 1.7, 1e-3, 7.1, 1e5 / 3, 0.9};
+
+static Grid pick_grid(Rng& r, int mlo, int mhi) {
+  Grid g; g.mlo = mlo;
+  int hs = r.range(0, 19);
+  g.h = hs < 16 ? kSteps[hs] : hs < 18 ? 0.05 + r.unit() * 3 : std::ldexp(1.0 + r.unit(), r.range(-20, 10));   // any non-dyadic step will do
+  int v = r.range(0, 9);
+  g.a = 0; g.s = 1; g.how = 0;
+  if (v < 4) { g.how = 0; }                                                             // m*h, the literal `i*0.1`
+  else if (v < 6) { g.how = 1; }                                                        // accumulated
+  else if (v == 6) { g.how = 0; g.a = kShifts[r.range(0, 7)]; }                         // shifted
+  else if (v == 7) { g.how = 0; g.s = kScales[r.range(0, 6)]; }                         // scaled
+  else if (v == 8) { g.how = 2; g.s = kScales[r.range(0, 6)]; g.a = r.coin() ? 0 : kShifts[r.range(0, 7)]; }
+  else { g.how = 3; g.s = kScales[r.range(0, 6)]; g.a = kShifts[r.range(0, 7)]; }       // shifted, then scaled
+  if (g.how == 1) {
+    // v += h upwards from 0 for m >= 0, v -= h downwards for m < 0
+    g.acc.assign(mhi - mlo + 1, 0.0);
+    double x = 0; for (int m = 0; m <= mhi; m++) { if (m >= mlo) g.acc[m - mlo] = x; x += g.h; }
+    x = 0; for (int m = 0; m >= mlo; m--) { if (m <= mhi) g.acc[m - mlo] = x; x -= g.h; }
+  }
+  stats["grid_how_" + std::to_string(g.how) + (g.a != 0 ? "_shift" : "") + (g.s != 1 ? "_scale" : "")]++;
+  return g;
+}
+
+// strictly increasing after rounding? (tiny steps against a large shift could collapse)
+static bool strictly_increasing(const std::vector<double>& k) {
+  for (size_t i = 1; i < k.size(); i++) if (!(k[i] > k[i - 1])) return false;
+  return true;
+}
+
+// table knots: consecutive grid nodes (tstyle 0) or irregularly spaced grid nodes (tstyle 1) or grid nodes with a
+// few off-grid knots mixed in (tstyle 2)
+static std::vector<double> grid_table_knots(Rng& r, const Grid& g, int nk, int m0, int tstyle, std::vector<int>& ms) {
+  std::vector<double> k(nk); ms.assign(nk, 0);
+  int m = m0;
+  for (int i = 0; i < nk; i++) {
+    ms[i] = m; k[i] = grid_at(g, m);
+    m += tstyle == 0 ? 1 : r.range(1, 3);
+  }
+  if (tstyle == 2) for (int i = 1; i + 1 < nk; i++) if (r.coin(1, 4)) k[i] = k[i] + (k[i + 1] - k[i]) * (0.1 + 0.8 * r.unit());
+  return k;
+}
+
+// kernel knots: kstyle 5 grid nodes m_j*h (the kernel does not follow the shift: it is a difference of positions);
+// 6 differences of table knots; 7 nodes of the half / third / double grid; 8 grid nodes with off-grid knots mixed in;
+// 9 grid nodes perturbed by a few ulp (sums that nearly coincide for no arithmetic reason)
+static std::vector<double> grid_kernel(Rng& r, const Grid& g, const std::vector<double>& k, int n, int kstyle) {
+  std::vector<double> y(n);
+  Grid g0 = g; g0.a = 0; if (g0.how == 3) g0.how = 0;     // (a+m*h)*s - a*s: positions differ by s*(m*h)
+  double step = std::fabs(grid_at(g0, 1) - grid_at(g0, 0));
+  switch (kstyle) {
+    case 6: {
+      int b = r.range(0, (int)k.size() - 1), a = r.range(0, (int)k.size() - 1);
+      // n distinct indices around a, ascending
+      std::vector<int> idx; int lo = std::max(0, std::min(a, (int)k.size() - n));
+      for (int j = 0; j < n && lo + j < (int)k.size(); j++) idx.push_back(lo + j);
+      y.resize(idx.size());
+      for (size_t j = 0; j < idx.size(); j++) y[j] = k[idx[j]] - k[b];
+      break;
+    }
+    case 7: {
+      int den = r.coin() ? 2 : 3; bool coarse = r.coin(1, 4);
+      int m = r.range(-4, 1);
+      for (int j = 0; j < n; j++) { y[j] = coarse ? (2 * m) * step : m * (step / den); m += r.range(1, 3); }
+      break;
+    }
+    default: {
+      int m = std::max(g.mlo, r.range(-4, 1));
+      for (int j = 0; j < n; j++) { y[j] = grid_at(g0, m); m += r.range(1, 2); }
+      if (kstyle == 8) {
+        for (int j = 0; j < n; j++) if (r.coin(1, 3)) {
+          double lo = j ? y[j - 1] : y[0] - step, hi = j + 1 < n ? y[j + 1] : y[n - 1] + step;
+          y[j] = lo + (hi - lo) * (0.1 + 0.8 * r.unit());
+        }
+      } else if (kstyle == 9) {
+        // (a knot that is exactly 0 stays: its neighbours are denormals, and a knot interval of denormal width overflows
+        // 1/width in the evaluator -- ndsplineeval returns NaN there; the evaluator's domain, C01)
+        for (int j = 0; j < n; j++) { int u = r.range(-3, 3); if (y[j] == 0) u = 0; for (int t = 0; t < std::abs(u); t++) y[j] = std::nextafter(y[j], u > 0 ? 1e300 : -1e300); }
+      }
+    }
+  }
+  return y;
+}
+
+// measured: how many adjacent sorted pairwise sums are bit-equal / differ by at most 8 ulp without being equal
+static void count_coincidences(const std::vector<double>& rho, long& exact, long& near) {
+  exact = near = 0;
+  for (size_t i = 1; i < rho.size(); i++) {
+    double d = rho[i] - rho[i - 1];
+    if (d == 0) exact++;
+    else if (d <= 8 * 2.220446049250313e-16 * std::max(std::fabs(rho[i]), std::fabs(rho[i - 1]))) near++;
+  }
+}
+
+static void gen_case(Rng& r, Case& c, int npoints, int forced_order, bool gridfam = false) {
   int w = r.range(0, 99);
   int nd = w < 40 ? 1 : w < 70 ? 2 : w < 90 ? 3 : 4;
   c.dim = r.range(0, nd - 1);
   c.ord.assign(nd, 0); c.kn.assign(nd, {}); c.ext.assign(nd, {{0, 0}});
   int ostyle = -1;
+  Grid grid; std::vector<int> grid_ms;
   for (int i = 0; i < nd; i++) {
     if ((uint32_t)i == c.dim) {
       c.ord[i] = forced_order >= 0 ? forced_order : r.range(0, 5);
       int extra = r.range(0, 9) < 3 ? 0 : r.range(1, 6);
       if (nd >= 3 && extra > 3) extra = 3;
+      if (gridfam) {
+        int tstyle = r.range(0, 9); tstyle = tstyle < 5 ? 0 : tstyle < 8 ? 1 : 2;
+        ostyle = 4 + tstyle;
+        int nk = 2 * c.ord[i] + 2 + extra;
+        for (int attempt = 0;; attempt++) {
+          grid = pick_grid(r, -10, 80);
+          if (attempt >= 8) { grid.h = 0.1; grid.a = 0; grid.s = 1; grid.how = 0; }
+          c.kn[i] = grid_table_knots(r, grid, nk, r.range(-8, 8), tstyle, grid_ms);
+          if (strictly_increasing(c.kn[i])) break;
+          stats["grid_retry_table"]++;
+        }
+      } else {
       ostyle = r.range(0, 3);
       c.kn[i] = conv_knots(r, c.ord[i], extra, ostyle);
+      }
     } else {
       c.ord[i] = r.range(0, nd >= 3 ? 2 : 3);
       c.kn[i] = gen_knots(r, c.ord[i], r.range(0, nd >= 3 ? 1 : 3), r.range(0, 1));
@@ -84,6 +218,17 @@ static void gen_case(Rng& r, Case& c, int npoints, int forced_order) {
   int kstyle = r.range(0, 4);
   if (ostyle == 0 && r.coin()) kstyle = 4;
   if (ostyle == 2 && r.coin()) kstyle = 3;
+  if (gridfam) {
+    int ks = r.range(0, 11);
+    kstyle = ks < 5 ? 5 : ks < 7 ? 6 : ks < 9 ? 7 : ks < 11 ? 8 : 9;
+    for (int attempt = 0;; attempt++) {
+      c.ck = grid_kernel(r, grid, k, n, attempt < 8 ? kstyle : 5);
+      if (c.ck.size() >= 2 && strictly_increasing(c.ck)) break;
+      stats["grid_retry_kernel"]++;
+      if (attempt >= 16) { c.ck = {-0.1, 0.0, 0.2}; break; }
+    }
+    n = c.ck.size();
+  } else
   c.ck = kernel(r, n, kstyle, spacing);
   stats["kernel_n_" + std::to_string(n)]++;
   stats["kernelstyle_" + std::to_string(kstyle)]++;
@@ -108,14 +253,28 @@ static void gen_case(Rng& r, Case& c, int npoints, int forced_order) {
   std::vector<double> rho;
   for (double a : k) for (double b : c.ck) rho.push_back(a + b);
   std::sort(rho.begin(), rho.end());
+  {
+    long ex, nr_; count_coincidences(rho, ex, nr_);
+    stats["sums_adjacent_bit_equal"] += ex; stats["sums_adjacent_within_8ulp_not_equal"] += nr_;
+    if (nr_) stats["cases_with_nearly_coinciding_sums"]++;
+    if (nr_ && ex) stats["cases_with_exactly_and_nearly_coinciding_sums"]++;
+    if (gridfam) stats["gridfam_cases"]++;
+  }
   int co = c.ord[c.dim] + n - 1; int nr = rho.size(); int na = nr - co - 1;
   c.pts.clear();
   for (int p = 0; p < npoints; p++) {
     std::vector<double> x(nd);
     for (int i = 0; i < nd; i++) {
       if ((uint32_t)i == c.dim) {
-        int m = r.range(0, 11); const char* kind;
+        int m = r.range(0, gridfam ? 14 : 11); const char* kind;
         switch (m) {
+          case 12: case 13: {   // a knot of a cluster of nearly coinciding sums (or its neighbour in the cluster)
+            kind = "cluster_knot"; std::vector<int> cl;
+            for (int t = 1; t < nr; t++) { double d = rho[t] - rho[t - 1]; if (d > 0 && d <= 8 * 2.220446049250313e-16 * std::max(std::fabs(rho[t]), std::fabs(rho[t - 1]))) cl.push_back(t); }
+            if (cl.empty()) { kind = "new_knot"; x[i] = rho[r.range(1, nr - 1)]; }
+            else { int t = cl[r.below(cl.size())]; x[i] = rho[t - (int)r.below(2)]; }
+            break; }
+          case 14: { kind = "knot_neighbour"; double v = rho[r.range(1, nr - 2)]; x[i] = std::nextafter(v, r.coin() ? 1e300 : -1e300); break; }
           case 0: kind = "new_knot"; x[i] = rho[r.range(1, nr - 1)]; break;
           case 1: case 2: kind = "lower_margin"; x[i] = rho[0] + (rho[co] - rho[0]) * r.unit(); break;
           case 3: case 4: kind = "upper_margin"; x[i] = rho[na] + (rho[nr - 1] - rho[na]) * r.unit(); break;
@@ -234,6 +393,18 @@ int main(int argc, char** argv) {
     int order0_done = 0;
     for (int i = 0; i < ncases; i++) {
       Case c; gen_case(r, c, npoints, i < 12 ? i % 6 : -1);   // every order at least twice
+      if (f0bad && c.ord[c.dim] == 0) { if (order0_done >= 1) { stats["order0_cases_skipped_factorial0_slow"]++; continue; } order0_done++; }
+      emit_case(c); run_case(c);
+      fflush(fc); fflush(fi);
+    }
+    // grid family: its own generator, so that the cases above are the same as before for a given seed
+    // (seeded through one splitmix output: states of the form seed*G + c step by G, i.e. the streams of neighbouring seeds
+    // are shifts of one another and can fall into step)
+    Rng mix(env_seed() * 0x9e3779b97f4a7c15ULL + 1404); mix.next();
+    Rng rg(mix.next() ^ (env_seed() << 32));
+    int ngrid = ncases ? (ncases * 6 + 6) / 7 : 0;
+    for (int i = 0; i < ngrid; i++) {
+      Case c; gen_case(rg, c, npoints, i < 12 ? i % 6 : -1, true);
       if (f0bad && c.ord[c.dim] == 0) { if (order0_done >= 1) { stats["order0_cases_skipped_factorial0_slow"]++; continue; } order0_done++; }
       emit_case(c); run_case(c);
       fflush(fc); fflush(fi);
